@@ -16,6 +16,11 @@ from rtverif.props.c02 import past_cfg
 KINDS = ('dt_off', 'dt_on', 'ct_off', 'ct_on')
 
 
+def _jsonable(x):
+    from rtverif import runner
+    return runner.jsonable(x)
+
+
 def gen_obj(rng):
     """One specification + its data + its call script."""
     kind = rng.choice(KINDS)
@@ -46,7 +51,30 @@ def gen_obj(rng):
         f = lang.N(rng.choice(['and', 'or', 'add', 'until', 'since']), *rng.sample([inner, rng.choice([x, f])], 2))
     names = lang.variables(f) or [c.vars[0]]
     data = lang.gen_trace(rng, names, n)
-    return {'kind': kind, 'formula': lang.to_jsonable(f), 'data': data, 'reps': rng.choice([1, 2, 2, 3])}
+    obj = {'kind': kind, 'formula': lang.to_jsonable(f), 'data': data, 'reps': rng.choice([1, 2, 2, 3])}
+    if rng.random() < 0.3 and any(g[1] is not None for g in lang.walk(f)):
+        obj['units'] = rng.choice(['s', 'ms', 'us'])
+    return obj
+
+
+def obj_sd(obj):
+    """Specification dict of one object; 'units' objects spell every bound with an explicit suffix and set a
+    default unit, so that objects with the same interval text but different default units meet in one process
+    (only solo-vs-interleaved equality is judged here, not what the values are)."""
+    f = lang.from_jsonable(obj['formula'])
+    sd = {'vars': sorted(obj['data'])}
+    u = obj.get('units')
+    if not u:
+        sd['text'] = lang.to_text(f)
+        return sd
+    dense = obj['kind'].startswith('ct')
+    if dense:
+        pr = lambda i: '[%sms,%sms]' % (lang.num(i[0] * 1000), lang.num(i[1] * 1000))
+    else:
+        pr = lambda i: '[%ss,%ss]' % (lang.num(i[0]), lang.num(i[1]))
+    sd['text'] = lang.to_text(f, ivl_printer=pr)
+    sd['unit'] = u
+    return sd
 
 
 def calls_of(obj):
@@ -88,8 +116,10 @@ def build_args(obj, spec, tw=None, label='arg'):
 
 
 def run_solo(obj):
-    m = drive.Mon({'dt_off': 'dt', 'dt_on': 'dt', 'ct_off': 'ct', 'ct_on': 'ct'}[obj['kind']],
-                  {'text': lang.to_text(lang.from_jsonable(obj['formula'])), 'vars': sorted(obj['data'])})
+    try:
+        m = drive.Mon({'dt_off': 'dt', 'dt_on': 'dt', 'ct_off': 'ct', 'ct_on': 'ct'}[obj['kind']], obj_sd(obj))
+    except Exception as e:
+        return ['parse raised %s' % type(e).__name__]
     out = []
     for meth, spec in calls_of(obj):
         try:
@@ -134,6 +164,8 @@ class C11(Prop):
         objs = [gen_obj(rng) for _ in range(k)]
         if rng.random() < 0.4:
             objs[1] = dict(objs[0])                     # same text, same data, separate object
+            if objs[1].get('units') and rng.random() < 0.7:
+                objs[1]['units'] = rng.choice([u for u in ('s', 'ms', 'us') if u != objs[0]['units']])
         order = []
         for i, o in enumerate(objs):
             order += [i] * len(calls_of(o))
@@ -152,7 +184,7 @@ class C11(Prop):
         v.info['purity:' + obj['kind']] = 1
         api = {'dt_off': 'dt', 'dt_on': 'dt', 'ct_off': 'ct', 'ct_on': 'ct'}[obj['kind']]
         try:
-            m = drive.Mon(api, {'text': text, 'vars': sorted(obj['data'])})
+            m = drive.Mon(api, obj_sd(obj))
         except Exception as e:
             v.skip = 'parse raised'
             return v
@@ -192,8 +224,7 @@ class C11(Prop):
         solo = [run_solo(o) for o in objs]
         api = {'dt_off': 'dt', 'dt_on': 'dt', 'ct_off': 'ct', 'ct_on': 'ct'}
         try:
-            ms = [drive.Mon(api[o['kind']], {'text': lang.to_text(lang.from_jsonable(o['formula'])),
-                                             'vars': sorted(o['data'])}) for o in objs]
+            ms = [drive.Mon(api[o['kind']], obj_sd(o)) for o in objs]
         except Exception:
             v.skip = 'parse raised'
             return v
@@ -223,9 +254,59 @@ class C11(Prop):
                 break
         return v
 
+    def cross_process(self, ctx):
+        """Isolation against a fresh process: every object of a few groups is run ALONE in its own interpreter
+        process; the same objects are then run, interleaved, in this long-lived process (which has executed all
+        the cases above, so any process-wide cache or class attribute is as polluted as it gets)."""
+        rng = ctx.rng
+        groups = 10 if ctx.tier == 'quick' else 40
+        here = os.path.dirname(os.path.dirname(os.path.dirname(os.path.abspath(__file__))))
+        code = ('import sys,os,json; sys.stdout=open(os.devnull,"w"); from rtverif.props import c11; '
+                'sys.__stdout__.write(json.dumps(c11.run_solo(json.loads(sys.stdin.read())), default=repr))')
+        env = dict(os.environ, PYTHONPATH=drive.REPO + os.pathsep + here)
+        for g in range(groups):
+            k = rng.randint(2, 3)
+            base = gen_obj(rng)
+            objs = [base]
+            for j in range(1, k):
+                o = dict(base) if rng.random() < 0.6 else gen_obj(rng)
+                objs.append(o)
+            units = ['s', 'ms', 'us']
+            rng.shuffle(units)
+            for j, o in enumerate(objs):
+                if any(gg[1] is not None for gg in lang.walk(lang.from_jsonable(o['formula']))):
+                    o['units'] = units[j % 3]
+            procs = [subprocess.Popen([sys.executable, '-B', '-c', code], env=env, stdin=subprocess.PIPE,
+                                      stdout=subprocess.PIPE, stderr=subprocess.PIPE) for _ in objs]
+            refs = []
+            for o, p in zip(objs, procs):
+                try:
+                    out, err = p.communicate(json.dumps(_jsonable(o)).encode(), timeout=120)
+                    refs.append(json.loads(out.decode()) if p.returncode == 0 else None)
+                    if p.returncode != 0:
+                        why = err.decode('utf8', 'replace')[-300:]
+                except Exception as e:
+                    p.kill()
+                    refs.append(None)
+                    why = repr(e)
+            if any(r is None for r in refs):
+                ctx.notes.append('cross-process reference failed for a group (inconclusive): %s' % why)
+                continue
+            got = [json.loads(json.dumps(run_solo(o), default=repr)) for o in objs]
+            case = {'type': 'cross-process', 'objs': objs}
+            ctx.case(case, True)
+            ctx.count('cross-process-objects', len(objs))
+            for o, r, gt in zip(objs, refs, got):
+                if json.dumps(r, sort_keys=True) != json.dumps(gt, sort_keys=True):
+                    ctx.violation('process-state-leak', 'object (%s, %s, unit=%s) returns %s in a process that has run '
+                                  'other specifications but %s when run alone in a fresh process' % (
+                                      o['kind'], obj_sd(o)['text'], o.get('units'), repr(gt)[:300], repr(r)[:300]), case)
+                    break
+
     def extra(self, ctx):
         if ctx.shard != 0:
             return
+        self.cross_process(ctx)
         seeds = ['0', '1', '2', '12345', 'random'] + (['7', '99', 'random', 'random'] if ctx.tier == 'thorough' else [])
         count = 150 if ctx.tier == 'quick' else 600
         here = os.path.dirname(os.path.dirname(os.path.dirname(os.path.abspath(__file__))))
